@@ -590,6 +590,28 @@ def aware_value_untouched_rule(ctx, chk, rule):
                "no longer the base the relative arithmetic starts from" % " ".join(ast.unparse(r).split()),
                key={"function": f.key, "construct": "aware passthrough"}, file=f.file, function=f.qual, line=r.lineno,
                text=" ".join(ast.unparse(r).split()))
+    # naive path: the zone is attached to the wall clock as written - tz.localize(dt) / dt.replace(tzinfo=tz) of the ARGUMENT, nothing after it
+    # (pytz's normalize() / astimezone() / arithmetic move a wall clock that falls into a DST gap)
+    for r in rets:
+        at = next(iter(g.nodes_of(r)), None)
+        if not (isinstance(r.value, ast.Name) and r.value.id == p):
+            continue
+        rd = g.reaching_defs(p).get(at, set()) - {g.entry.id}
+        if not rd:
+            continue
+        bad = []
+        for d in sorted(rd):
+            st = g.nodes[d].stmt
+            v = getattr(st, "value", None)
+            good = isinstance(st, ast.Assign) and isinstance(v, ast.Call) and isinstance(v.func, ast.Attribute) and (
+                (v.func.attr == "localize" and len(v.args) == 1 and ast.unparse(v.args[0]) == p and not v.keywords)
+                or (v.func.attr == "replace" and ast.unparse(v.func.value) == p and [k.arg for k in v.keywords] == ["tzinfo"] and not v.args))
+            good = good and g.reaching_defs(p).get(d, set()) <= {g.entry.id}
+            if not good:
+                bad.append(" ".join(ast.unparse(st).split())[:70])
+        chk.ob(rule, "localize_timezone line %d: a naive value only gets the zone attached (localize / replace(tzinfo=)) - its wall clock is not moved" % r.lineno,
+               not bad, "the returned value also goes through `%s`: wall clocks inside a DST gap of TIMEZONE come back shifted" % "; ".join(bad),
+               key={"function": f.key, "construct": "naive attach only"}, file=f.file, function=f.qual, line=r.lineno)
     chk.ob(rule, "localize_timezone distinguishes aware from naive arguments", aware_seen, "no return is taken on `%s.tzinfo`" % p,
            key={"function": f.key, "construct": "aware test"}, file=f.file, function=f.qual, line=f.node.lineno)
 
